@@ -174,6 +174,36 @@ pub fn search(seed: u64, n: u64) {
         stats.case(&format!("crossing_just_before_vertex d={} A={:?} B={:?}", d, a, b), true);
         check_pair_x(&mut stats, &mut rng_c, &a, &b, "crossing_just_before_vertex", 150, 150, false);
     }
+    // a classification ray that runs ALONG a straight edge which the collision stage has cut into two or three collinear pieces: an
+    // L-shaped rectilinear operand on the integer grid whose step edge is crossed transversally by the other operand, with an edge of the
+    // L whose mid point is level with the step edge (the ray cast from that mid point follows the step edge through its cut points); no
+    // shared vertices or edges, no tangency (own stream; from seeded change C01-m9; the unchanged code is right on these)
+    let mut rng_l = Rng(seed ^ 0x57E9C01);
+    for k in 0..(4 + n / 25) {
+        let g = |rng: &mut Rng, lo: i64, hi: i64| (lo + rng.i((hi - lo + 1) as u64) as i64) as f64;
+        let (x0, y0) = (g(&mut rng_l, 5, 15), g(&mut rng_l, 5, 15));
+        let half = g(&mut rng_l, 6, 12);                  // the left edge runs from y0 to y0 + 2*half: its mid point is level with the step
+        let (xa, xb) = (x0 + g(&mut rng_l, 6, 12), x0 + g(&mut rng_l, 28, 40));
+        let ys = y0 + half;
+        let l = vec![Coord2(x0, y0), Coord2(x0, y0 + 2.0 * half), Coord2(xa, y0 + 2.0 * half), Coord2(xa, ys), Coord2(xb, ys), Coord2(xb, y0)];
+        // the other operand crosses the step edge with one or two of its edges, well inside it
+        let cx = xa + (xb - xa) * rng_l.r(0.35, 0.65);
+        let wq = rng_l.r(2.0, 4.0);
+        let q = if k % 3 == 0 {
+            vec![Coord2(cx - wq, ys - rng_l.r(3.0, 5.0)), Coord2(cx + wq, ys - rng_l.r(3.0, 5.0)), Coord2(cx + wq * 1.3, ys + rng_l.r(3.0, 5.5)), Coord2(cx - wq * 1.4, ys + rng_l.r(3.0, 5.5))]
+        } else {
+            vec![Coord2(cx - wq, ys - rng_l.r(3.0, 5.0)), Coord2(cx + wq, ys - rng_l.r(3.0, 5.0)), Coord2(cx + rng_l.r(-0.5, 0.5), ys + rng_l.r(3.0, 5.5))]
+        };
+        let mut la = l.clone(); if k % 2 == 1 { la.reverse(); }
+        let mut qb = q.clone(); let rot = rng_l.i(q.len() as u64) as usize; qb.rotate_left(rot); if rng_l.b() { qb.reverse(); }
+        let mirror = k % 4 >= 2;
+        let mm = |v: Vec<Coord2>| -> Vec<Coord2> { if mirror { v.into_iter().map(|p| Coord2(p.1, p.0)).collect() } else { v } };
+        let (a, b) = (vec![polygon(&mm(la))], vec![polygon(&mm(qb))]);
+        let (a, b) = if k % 8 < 4 { (a, b) } else { (b, a) };
+        stats.count("pair.ray_along_cut_step_edge");
+        stats.case(&format!("ray_along_cut_step_edge A={:?} B={:?}", a, b), true);
+        check_pair_x(&mut stats, &mut rng_l, &a, &b, "ray_along_cut_step_edge", 200, 200, false);
+    }
     for _ in 0..n {
         let pair = gen_pair(&mut rng);
         count_pair(&mut stats, &pair);
